@@ -1,9 +1,293 @@
--- line-protocol handler of property C08 (stub: nothing modelled yet)
+-- line-protocol handler of property C08 (extension fields); mirrors harness/src/bin/c08.rs
 import Winter.Drv.Util
+import Winter.Model.Ext
 
 namespace Drv.C08
+open Model
 
-def handle (_toks : List String) : String := "-"
+/-- uniform view of the five extensions for the handler: an element is the list of its coordinates' raw words -/
+structure EOps where
+  I : FieldImpl
+  n : Nat
+  canonical : Bool
+  add : List Nat → List Nat → List Nat
+  sub : List Nat → List Nat → List Nat
+  mul : List Nat → List Nat → List Nat
+  neg : List Nat → List Nat
+  dbl : List Nat → List Nat
+  sq : List Nat → List Nat
+  conj : List Nat → List Nat
+  mulBase : List Nat → Nat → List Nat
+  inv : List Nat → Res (List Nat)
+  div : List Nat → List Nat → Res (List Nat)
+  exp : List Nat → Nat → List Nat
+  beq : List Nat → List Nat → Bool
+  zero : List Nat
+  one : List Nat
+  ofBase : Nat → List Nat
+  baseElement : List Nat → Nat → Option Nat
+  /-- slice_from_base_elements followed by slice_as_base_elements per element -/
+  unflatten : List Nat → Option (List (List Nat))
+
+def q (l : List Nat) : Quad Nat :=
+  match l with
+  | [a, b] => ⟨a, b⟩
+  | _ => ⟨0, 0⟩
+
+def c (l : List Nat) : Cube Nat :=
+  match l with
+  | [a, b, d] => ⟨a, b, d⟩
+  | _ => ⟨0, 0, 0⟩
+
+def quadOps (I : FieldImpl) (canonical : Bool) (X : Ext2 Nat) : EOps :=
+  let B := BOps.ofImpl I
+  { I := I, n := 2, canonical := canonical
+    add := fun a b => (Quad.add B (q a) (q b)).toList
+    sub := fun a b => (Quad.sub B (q a) (q b)).toList
+    mul := fun a b => (Quad.mul X (q a) (q b)).toList
+    neg := fun a => (Quad.neg B (q a)).toList
+    dbl := fun a => (Quad.double B (q a)).toList
+    sq := fun a => (Quad.square X (q a)).toList
+    conj := fun a => (Quad.conjugate X (q a)).toList
+    mulBase := fun a b => (Quad.mulBase X (q a) b).toList
+    inv := fun a => (Quad.inv B X (q a)).map Quad.toList
+    div := fun a b => (Quad.div B X (q a) (q b)).map Quad.toList
+    exp := fun a p => (Quad.exp B X (q a) p).toList
+    beq := fun a b => Quad.beq B (q a) (q b)
+    zero := (Quad.zero B).toList
+    one := (Quad.one B).toList
+    ofBase := fun x => (Quad.ofBase B x).toList
+    baseElement := fun a i => (q a).baseElement i
+    unflatten := fun l => (Quad.unflatten l).map (fun es => es.map Quad.toList) }
+
+def cubeOps (I : FieldImpl) (canonical : Bool) (X : Ext3 Nat) : EOps :=
+  let B := BOps.ofImpl I
+  { I := I, n := 3, canonical := canonical
+    add := fun a b => (Cube.add B (c a) (c b)).toList
+    sub := fun a b => (Cube.sub B (c a) (c b)).toList
+    mul := fun a b => (Cube.mul X (c a) (c b)).toList
+    neg := fun a => (Cube.neg B (c a)).toList
+    dbl := fun a => (Cube.double B (c a)).toList
+    sq := fun a => (Cube.square X (c a)).toList
+    conj := fun a => (Cube.conjugate X (c a)).toList
+    mulBase := fun a b => (Cube.mulBase X (c a) b).toList
+    inv := fun a => (Cube.inv B X (c a)).map Cube.toList
+    div := fun a b => (Cube.div B X (c a) (c b)).map Cube.toList
+    exp := fun a p => (Cube.exp B X (c a) p).toList
+    beq := fun a b => Cube.beq B (c a) (c b)
+    zero := (Cube.zero B).toList
+    one := (Cube.one B).toList
+    ofBase := fun x => (Cube.ofBase B x).toList
+    baseElement := fun a i => (c a).baseElement i
+    unflatten := fun l => (Cube.unflatten l).map (fun es => es.map Cube.toList) }
+
+def ext? : String → Option EOps
+  | "q64" => some (quadOps F64.impl Gen.F64.IS_CANONICAL (Ext2.f64 (BOps.ofImpl F64.impl).toFOps))
+  | "q62" => some (quadOps F62.impl Gen.F62.IS_CANONICAL (Ext2.f62 (BOps.ofImpl F62.impl).toFOps))
+  | "q128" => some (quadOps F128.impl Gen.F128.IS_CANONICAL (Ext2.f128 (BOps.ofImpl F128.impl).toFOps))
+  | "c64" => some (cubeOps F64.impl Gen.F64.IS_CANONICAL (Ext3.f64 (BOps.ofImpl F64.impl).toFOps))
+  | "c62" => some (cubeOps F62.impl Gen.F62.IS_CANONICAL (Ext3.f62 (BOps.ofImpl F62.impl).toFOps))
+  | _ => none
+
+/-- canonical integers of all coordinates, then the raw words -/
+def fmt (E : EOps) (a : List Nat) : String :=
+  joinNat (a.map E.I.asInt ++ a)
+
+def fmtRes (E : EOps) : Res (List Nat) → String
+  | .ok a => fmt E a
+  | .panic => "panic"
+  | .hang => "hang"
+
+/-- an operand word: an integer given to `BaseElement::new` (after the `as u64` cast of the harness for the 64-bit
+    words), or a raw internal word; `none`: not constructible (raw word of the 128-bit field ≥ M: the harness panics) -/
+def baseOf (E : EOps) (raw : Bool) (w : Nat) : Option Nat :=
+  let w := w % 2 ^ E.I.wordBits
+  if raw then
+    if E.I.name == "f128" && w ≥ E.I.M then none else some w
+  else some (E.I.new w)
+
+def u128? (s : String) : Option Nat :=
+  if s.isEmpty || !(s.all Char.isDigit) then none
+  else
+    match s.toNat? with
+    | some v => if v < 2 ^ 128 then some v else none
+    | none => none
+
+def nums? (ts : List String) : Option (List Nat) := ts.mapM u128?
+
+/-- split `k` elements off a list of operand words -/
+def takeElems (E : EOps) (raw : Bool) : Nat → List Nat → Option (List (List Nat) × List Nat)
+  | 0, ws => some ([], ws)
+  | k + 1, ws =>
+    if ws.length < E.n then none
+    else
+      match (ws.take E.n).mapM (baseOf E raw), takeElems E raw k (ws.drop E.n) with
+      | some a, some (es, rest) => some (a :: es, rest)
+      | _, _ => none
+
+def seqStep (E : EOps) (st : Option (Res (List Nat × List Nat))) (op : String) : Option (Res (List Nat × List Nat)) :=
+  match st with
+  | none => none
+  | some .panic => some .panic
+  | some .hang => some .hang
+  | some (.ok (acc, y)) =>
+    match op with
+    | "add" => some (.ok (E.add acc y, y))
+    | "sub" => some (.ok (E.sub acc y, y))
+    | "mul" => some (.ok (E.mul acc y, y))
+    | "neg" => some (.ok (E.neg acc, y))
+    | "dbl" => some (.ok (E.dbl acc, y))
+    | "sq" => some (.ok (E.sq acc, y))
+    | "conj" => some (.ok (E.conj acc, y))
+    | "swap" => some (.ok (y, acc))
+    | "inv" => some ((E.inv acc).map (fun r => (r, y)))
+    | "div" => some ((E.div acc y).map (fun r => (r, y)))
+    | _ => none
+
+def isOpName (s : String) : Bool := (u128? s).isNone
+
+def handleE (E : EOps) (raw : Bool) : List String → String
+  | [] => "bad-op"
+  | op :: rest =>
+    match op with
+    | "add" | "sub" | "mul" | "div" | "aut" =>
+      match nums? rest with
+      | none => "bad-op"
+      | some ws =>
+        if ws.length ≠ 2 * E.n then "bad-op"
+        else
+          match takeElems E raw 2 ws with
+          | some ([a, b], []) =>
+            match op with
+            | "add" => fmt E (E.add a b)
+            | "sub" => fmt E (E.sub a b)
+            | "mul" => fmt E (E.mul a b)
+            | "div" => fmtRes E (E.div a b)
+            | _ => s!"{fmt E (E.conj (E.mul a b))} {fmt E (E.conj (E.add a b))}"
+          | _ => "-"
+    | "sq" | "dbl" | "neg" | "inv" | "conj" | "frob" | "ser" =>
+      match nums? rest with
+      | none => "bad-op"
+      | some ws =>
+        if ws.length ≠ E.n then "bad-op"
+        else
+          match takeElems E raw 1 ws with
+          | some ([a], []) =>
+            match op with
+            | "sq" => fmt E (E.sq a)
+            | "dbl" => fmt E (E.dbl a)
+            | "neg" => fmt E (E.neg a)
+            | "inv" => fmtRes E (E.inv a)
+            | "ser" => s!"{hexOf (ExtBytes.toBytes E.I a)} {hexOf (ExtBytes.asBytes E.I a)}"
+            | _ => fmt E (E.conj a)
+          | _ => "-"
+    | "mulbase" | "exp" | "basee" =>
+      match nums? rest with
+      | none => "bad-op"
+      | some ws =>
+        if ws.length ≠ E.n + 1 then "bad-op"
+        else
+          match takeElems E raw 1 ws with
+          | some ([a], [x]) =>
+            match op with
+            | "mulbase" =>
+              match baseOf E raw x with
+              | some b => fmt E (E.mulBase a b)
+              | none => "-"
+            | "exp" => fmt E (E.exp a (if E.I.wordBits == 64 then x % 2 ^ 64 else x))
+            | _ =>
+              match E.baseElement a x with
+              | some b => s!"{E.I.asInt b} {b}"
+              | none => "panic"
+          | _ => "-"
+    | "emb" =>
+      match nums? rest with
+      | some [x, y] =>
+        match baseOf E raw x, baseOf E raw y with
+        | some x, some y =>
+          let (ex, ey) := (E.ofBase x, E.ofBase y)
+          s!"{fmt E (E.mul ex ey)} {fmt E (E.add ex ey)} {fmt E (E.sub ex ey)}"
+        | _, _ => "-"
+      | _ => "bad-op"
+    | "read" =>
+      match rest with
+      | [h] =>
+        match unhex h with
+        | some bs =>
+          match ExtBytes.readFrom E.I E.n bs with
+          | .ok cs r => s!"ok {fmt E cs} {r.length}"
+          | .eof => "eof"
+          | .err => "err"
+        | none => "-"
+      | _ => "bad-op"
+    | "frombytes" =>
+      match rest with
+      | [h] =>
+        match unhex h with
+        | some bs =>
+          match ExtBytes.tryFromBytes E.I E.n bs with
+          | some cs => s!"ok {fmt E cs}"
+          | none => "err"
+        | none => "-"
+      | _ => "bad-op"
+    | "tryfrom" =>
+      match rest.head?.bind u128? with
+      | some v =>
+        match E.I.tryFrom v with
+        | .ok r => s!"ok {fmt E (E.ofBase r)}"
+        | .err => "err"
+      | none => "bad-op"
+    | "small" =>
+      match rest.head?.bind u128? with
+      | some v =>
+        let f := fun (k : Nat) => fmt E (E.ofBase (E.I.new (v % 2 ^ k)))
+        s!"{f 32} {f 16} {f 8}"
+      | none => "bad-op"
+    | "flat" =>
+      match nums? (rest.filter (· ≠ "-")) with
+      | none => "bad-op"
+      | some ws =>
+        match ws.mapM (baseOf E raw) with
+        | none => "-"
+        | some bs =>
+          match E.unflatten bs with
+          | none => "panic"
+          | some es =>
+            let parts := [toString es.length] ++ es.map (fmt E) ++ [hexOf (ExtBytes.asBytes E.I bs)]
+            " ".intercalate parts
+    | "seq" =>
+      let numToks := rest.takeWhile (fun s => !(isOpName s))
+      let opToks := rest.dropWhile (fun s => !(isOpName s))
+      match nums? numToks with
+      | none => "bad-op"
+      | some ws =>
+        if ws.length ≠ 2 * E.n then "bad-op"
+        else
+          match takeElems E raw 2 ws with
+          | some ([a, b], []) =>
+            match opToks.foldl (seqStep E) (some (.ok (a, b))) with
+            | none => "bad-op"
+            | some .panic => "panic"
+            | some .hang => "hang"
+            | some (.ok (acc, y)) => s!"{fmt E acc} {fmt E y} {boolStr (E.beq acc y)}"
+          | _ => "-"
+    | "const" =>
+      if rest.isEmpty then
+        s!"{fmt E E.zero} {fmt E E.one} {E.n * E.I.bytes} {E.n} 1 {boolStr E.canonical}"
+      else "-"
+    | _ => "bad-op"
+
+def handle : List String → String
+  | [] => "bad-op"
+  | tag :: rest =>
+    if tag == "c128" then
+      -- `impl ExtensibleField<3> for f128::BaseElement`: `is_supported() = false`
+      if rest == ["const"] then "supported 0" else "bad-op"
+    else
+      let (raw, base) := if tag.startsWith "r" then (true, (tag.drop 1).toString) else (false, tag)
+      match ext? base with
+      | some E => handleE E raw rest
+      | none => "bad-op"
 
 end Drv.C08
 
